@@ -16,7 +16,7 @@ from lib.driver import Run
 ID = "C17"
 LEVEL = "fault_enumeration"
 TECHNIQUE = "lock-step model of the flat-file store + enumeration of byte corruptions of stored records, under ASan+UBSan"
-RULE = ("blockstore: a case is one block store (XOR key on odd cases) receiving 300 random-size blocks (200 B..60 KB, with and without "
+RULE = ("blockstore: a case is one block store (XOR key on odd cases) receiving 160 (quick) / 300 (thorough) random-size blocks (200 B..60 KB, with and without "
         "witness data) and undo records (lagging behind block writes, also across file roll-over), re-opened and pruned at random points; "
         "every record is read back through ReadBlock(pos,hash)/ReadBlock(pos)/ReadBlock(index)/ReadRawBlock(whole, part)/ReadBlockUndo and "
         "from the raw file. Then, for 3 block records and their undo records per case (one small record at every byte, the others at every "
@@ -40,10 +40,10 @@ REQUIRED = ["roundtrip_reads", "reopens", "files_pruned", "chunk_straddles", "fi
 
 def runs(tier, seed):
     if tier == "thorough":
-        return [Run("blockstore", cases=1200, params={"nwrites": 300, "ncorrupt": 4, "per_region": 400}, timeout=3000),
-                Run("corruptconnect", cases=160, params={"trials": 24}, timeout=3000)]
-    return [Run("blockstore", cases=40, params={"nwrites": 300, "ncorrupt": 3, "per_region": 150}, timeout=1200),
-            Run("corruptconnect", cases=16, params={"trials": 12}, timeout=1200)]
+        return [Run("blockstore", cases=480, params={"nwrites": 300, "ncorrupt": 4, "per_region": 400}, timeout=3000),
+                Run("corruptconnect", cases=96, params={"trials": 24}, timeout=3000)]
+    return [Run("blockstore", cases=16, params={"nwrites": 160, "ncorrupt": 3, "per_region": 150}, timeout=1200),
+            Run("corruptconnect", cases=8, params={"trials": 12}, timeout=1200)]
 
 
 def _blk(rec, st):
